@@ -1,0 +1,34 @@
+//go:build verif
+
+package cmd
+
+// Contracts for the verification tooling (build tag "verif"). Comment-only: never compiled into the daemon.
+// The three pipeline workers started by RunNamedPipe (closures passed to errgroup.Group.Go): a worker that
+// returns always returns a non-nil error, so the errgroup cancels the shared context and Wait reports it.
+
+//@ nonnil logger
+//@ ghost g_run_ret : Int
+//@ ghost g_run_ctx : Int
+
+//@ func RunNamedPipe$3
+//@   blocks cancellable
+//@   requires groupCtx != nil && h != nil && HealthOK(h) && eventWriter != nil && pprov != nil && pprov.remoteLogins != nil
+//@   ensures[fails] result != nil
+
+//@ func RunNamedPipe$4
+//@   blocks cancellable
+//@   requires groupCtx != nil && h != nil && HealthOK(h) && auditLogChan != nil
+//@   ensures[fails] result != nil
+
+//@ func RunNamedPipe$5
+//@   blocks cancellable
+//@   requires groupCtx != nil && h != nil && HealthOK(h) && eventWriter != nil && auditLogChan != nil
+//@   ensures[fails] result != nil
+
+// RunNamedPipe itself (flag parsing, logger construction, errgroup) is not symbolically executed: this clause
+// only names its result for the callers and is reported as an assumed contract; its wiring is checked structurally.
+//@ func RunNamedPipe
+//@   modifies out, ctr, chans, "F!*", "M!*", "S!*", "B!*", "V!*", g_run_ret, g_run_ctx
+//@   ghost g_run_ctx := ctx
+//@   ghost_exit g_run_ret := result
+//@   ensures[ret] g_run_ret == result && g_run_ctx == ctx
